@@ -789,6 +789,50 @@ func TestVerifC01(t *testing.T) {
 				}
 			}
 		}
+		// Precertificate Signing Certificates whose authorityKeyIdentifier is not the bare key identifier: key identifier +
+		// authorityCertIssuer + serial (OpenSSL's `issuer:always`), issuer + serial without a key identifier, none at all.
+		// RFC 6962 §3.2: the precert's AKI is replaced by THAT of the signing certificate — the extension value as it stands.
+		if wi < verifkit.N(3, 1000) {
+			up := w.inters[0]
+			dirName := c01Wrap(0xa1, c01Wrap(0xa4, up.c.RawIssuer))
+			serial := c01Wrap(0x82, up.c.SerialNumber.Bytes())
+			keyid := c01Wrap(0x80, up.c.SubjectKeyId)
+			forms := []struct {
+				name string
+				val  []byte
+				mode int
+			}{{"keyid+issuer+serial", c01Wrap(0x30, append(append(append([]byte{}, keyid...), dirName...), serial...)), vAKIAuto},
+				{"issuer+serial only", c01Wrap(0x30, append(append([]byte{}, dirName...), serial...)), vAKIAuto},
+				{"no AKI", nil, vAKINone}}
+			for fi, f := range forms {
+				pi := vIssue(vSpec{cn: fmt.Sprintf("c01w%d preissuer AKI %s", wi, f.name), key: keys[(5+fi)%len(keys)], issuer: up, isCA: true, keyUsage: vCAUsage,
+					ctEKU: true, rawAKI: f.val, akiMode: f.mode})
+				for _, leafAKI := range []int{vAKIAuto, vAKINone} {
+					p := vIssue(vSpec{cn: fmt.Sprintf("c01w%d precert under preissuer AKI %s / leaf AKI mode %d", wi, f.name, leafAKI), key: keys[9], issuer: pi,
+						keyUsage: stdx509.KeyUsageDigitalSignature, ekus: []stdx509.ExtKeyUsage{stdx509.ExtKeyUsageServerAuth}, poison: vPoisonOK, akiMode: leafAKI})
+					path := vPath(p)
+					lg.submit(path[:len(path)-1], path, true, c01Clocks[(fi+wi)%len(c01Clocks)], fmt.Sprintf("precert under a signing certificate with AKI form %q, leaf AKI mode %d", f.name, leafAKI))
+					out.Count("mode:preissuer-aki-forms")
+				}
+			}
+			// an ordinary issuing CA whose extended key usages include anyExtendedKeyUsage but not the CT precert-signing usage
+			// is NOT a Precertificate Signing Certificate: the entry names it as the issuer (its key hash, TBS issuer unchanged)
+			for ei, ekus := range [][]stdx509.ExtKeyUsage{{stdx509.ExtKeyUsageServerAuth, stdx509.ExtKeyUsageAny}, {stdx509.ExtKeyUsageAny}} {
+				ca := vIssue(vSpec{cn: fmt.Sprintf("c01w%d issuing CA with anyEKU %d", wi, ei), key: keys[(7+ei)%len(keys)], issuer: up, isCA: true, keyUsage: vCAUsage, ekus: ekus})
+				for _, pre := range []bool{true, false} {
+					sp := vSpec{cn: fmt.Sprintf("c01w%d leaf under anyEKU CA %d pre=%v", wi, ei, pre), key: keys[9], issuer: ca,
+						keyUsage: stdx509.KeyUsageDigitalSignature, ekus: []stdx509.ExtKeyUsage{stdx509.ExtKeyUsageServerAuth}}
+					if pre {
+						sp.poison = vPoisonOK
+					}
+					path := vPath(vIssue(sp))
+					for _, chain := range [][]*vCert{path[:len(path)-1], path} {
+						lg.submit(chain, path, pre, c01Clocks[(ei+wi+len(chain))%len(c01Clocks)], fmt.Sprintf("leaf (precert %v) issued directly by a CA with EKUs %v, chain %d", pre, ekus, len(chain)))
+					}
+					out.Count("mode:issuer-with-any-eku")
+				}
+			}
+		}
 		// issuers whose SubjectPublicKeyInfo is not in the encoding an encoder would produce: the issuer key hash is
 		// over the bytes that stand in the issuer's certificate
 		{
